@@ -173,7 +173,11 @@ func toRoute(opts []Opt, trace *[]int) []fox.RouteOption {
 		case "mw":
 			out = append(out, fox.WithMiddleware(tracer(o.ID, trace)))
 		case "annot":
-			out = append(out, fox.WithAnnotation(annotKeys[o.Key], o.ID))
+			if o.ID == 0 {
+				out = append(out, fox.WithAnnotation(annotKeys[o.Key], nil)) // an explicit nil is a value like any other: it replaces an earlier one
+			} else {
+				out = append(out, fox.WithAnnotation(annotKeys[o.Key], o.ID))
+			}
 		}
 	}
 	return out
@@ -225,7 +229,7 @@ func checkAccessors(desc string, rte *fox.Route, pattern string, want state) err
 	}
 	for k := range annotKeys {
 		var wantV any
-		if v, ok := want.annots[k]; ok {
+		if v, ok := want.annots[k]; ok && v != 0 {
 			wantV = v
 		}
 		if got := rte.Annotation(annotKeys[k]); got != wantV {
@@ -386,7 +390,7 @@ func genOpts(t *rapid.T, route bool, label string) []Opt {
 		case "mw":
 			o.ID = gen.IntR(t, 1, 99, "mw")
 		case "annot":
-			o.Key, o.ID = gen.IntR(t, 0, len(annotKeys)-1, "akey"), gen.IntR(t, 1, 99, "aval")
+			o.Key, o.ID = gen.IntR(t, 0, len(annotKeys)-1, "akey"), gen.IntR(t, 0, 6, "aval") // 0 = nil value
 		}
 		out = append(out, o)
 	}
